@@ -13,7 +13,7 @@ fn make_rules(targs: &Vec<Vec<String>>, deps: &Vec<Vec<String>>, leaves: &Vec<Ve
 {
     (0..targs.len()).map(|i| {
         let mut s = deps[i].clone(); s.extend(leaves[i].iter().cloned());
-        Rule::new(targs[i].clone(), s, vec![format!("cmd{}", i)])
+        Rule::new(targs[i].clone(), s, vec![format!("cmd-{}", targs[i].join("+"))])
     }).collect()
 }
 
@@ -118,7 +118,8 @@ fn run_case(targs: &Vec<Vec<String>>, deps: &Vec<Vec<String>>, leaves: &Vec<Vec<
     {
         let permuted : Vec<Rule> = perm.iter().map(|i| rules[*i].clone()).collect();
         *calls += 1;
-        let result = match goal { Some(g) => topological_sort(permuted, g), None => topological_sort_all(permuted) };
+        let caught = std::panic::catch_unwind(std::panic::AssertUnwindSafe(|| match goal { Some(g) => topological_sort(permuted, g), None => topological_sort_all(permuted) }));
+        let result = match caught { Ok(r) => r, Err(_) => { complaints.push(format!("the sorter PANICKED (permutation {:?})", perm)); continue; } };
         let verdict = match (&expect, &result)
         {
             (Expect::Dup, Err(TopologicalSortError::TargetInMultipleRules(t))) =>
@@ -143,6 +144,7 @@ fn run_case(targs: &Vec<Vec<String>>, deps: &Vec<Vec<String>>, leaves: &Vec<Vec<
 #[test]
 fn verif_sort_witness_exhaustive()
 {
+    std::panic::set_hook(Box::new(|_| {}));   /* panics of the code under test are reported as WITNESS lines, not as noise */
     let max_rules : usize = std::env::var("VERIF_SORT_MAX_RULES").ok().and_then(|s| s.parse().ok()).unwrap_or(4);
     let mut calls = 0u64; let mut cases = 0u64; let mut bad = 0u64;
     let mut kinds : BTreeMap<String, u64> = BTreeMap::new();
@@ -166,6 +168,32 @@ fn verif_sort_witness_exhaustive()
                 {
                     bad += 1;
                     if bad <= 40 { println!("WITNESS {} :: {}", describe(&targs, &deps, &goal), c); }
+                }
+            }
+        }
+    }
+    /*  a rule that arrives twice identically (e.g. carried by two rules files): the duplicated target must be reported */
+    for n in 1..=3usize
+    {
+        let combos : u64 = 1u64 << (n * n);
+        for code in 0..combos
+        {
+            for dup in 0..n
+            {
+                let mut targs : Vec<Vec<String>> = (0..n).map(|i| vec![name(i)]).collect();
+                let mut leaves : Vec<Vec<String>> = (0..n).map(|i| vec![format!("leaf{}", i)]).collect();
+                let mut deps : Vec<Vec<String>> = (0..n).map(|i| (0..n).filter(|j| (code >> (i * n + j)) & 1 == 1).map(|j| name(j)).collect()).collect();
+                targs.push(targs[dup].clone()); leaves.push(leaves[dup].clone()); deps.push(deps[dup].clone());
+                let mut goals : Vec<Option<String>> = vec![None];
+                for g in 0..n { goals.push(Some(name(g))); }
+                for goal in goals
+                {
+                    cases += 1;
+                    for c in run_case(&targs, &deps, &leaves, &goal, n <= 2, &mut calls)
+                    {
+                        bad += 1;
+                        if bad <= 40 { println!("WITNESS {} :: {}", describe(&targs, &deps, &goal), c); }
+                    }
                 }
             }
         }
